@@ -290,7 +290,7 @@ func (x *Exec) evalBuiltin(name string, call *ast.CallExpr, st *State) Value {
 		v := x.eval(call.Args[0], st)
 		switch a := v.(type) {
 		case *SliceV:
-			return IntV{mkInt(int64(len(a.Elems)))}
+			return IntV{a.length()}
 		case *MapV:
 			return IntV{mkInt(int64(len(a.Keys)))}
 		case NilV:
